@@ -995,7 +995,82 @@ func c04Recursive(c *Ctx) {
 	}
 }
 
+// c04Known: two open findings with the values that show them (any other difference of these types is a violation)
+type c04U struct {
+	A bool `thrift:"1"`
+	B int  `thrift:"2"`
+	F any  `thrift:",union"`
+}
+type c04HoldMap struct {
+	M map[string]c04U `thrift:"1"`
+}
+type c04HoldList struct {
+	L []c04U `thrift:"1"`
+}
+type c04E64 struct {
+	E int64 `thrift:"1,enum"`
+}
+
+func c04Known(c *Ctx) {
+	tr := true
+	for _, pn := range protoNames {
+		p := protoOf(pn)
+		// F-C04-2: a union as the value of a map entry: the member pointer of the decoded entry points into the
+		// decoder's scratch entry, which is cleared afterwards
+		{
+			k := thriftCase{Proto: pn, What: "known: union as a map value"}
+			in := c04HoldMap{M: map[string]c04U{"a": {A: true, F: &tr}}}
+			var out c04HoldMap
+			var err error
+			c.Case()
+			c.Eval(1)
+			b, merr := thrift.Marshal(p, in)
+			if pan := protect(func() { err = thrift.Unmarshal(p, b, &out) }); pan != "" || merr != nil || err != nil {
+				c.Diverge("C04", "thrift.Unmarshal(Marshal(v))(union as a map value)["+pn+"]", "the value", fmt.Sprintf("%v %v %s", merr, err, pan), "", k)
+			} else {
+				e, ok := out.M["a"]
+				fp, isPtr := e.F.(*bool)
+				switch {
+				case ok && e.A && isPtr && fp != nil && *fp:
+				case ok && e.A && isPtr && fp != nil && !*fp:
+					c.Diverge("C04", "thrift.Unmarshal(Marshal(v))(union as a map value)["+pn+"]", "A=true, F -> true", "A=true, F -> false", "F-C04-2", k)
+				default:
+					c.Diverge("C04", "thrift.Unmarshal(Marshal(v))(union as a map value)["+pn+"]", "A=true, F -> true", fmt.Sprintf("%+v", out), "", k)
+				}
+			}
+			// the same union as a list element comes back whole
+			inl := c04HoldList{L: []c04U{{A: true, F: &tr}}}
+			var outl c04HoldList
+			bl, _ := thrift.Marshal(p, inl)
+			if pan := protect(func() { err = thrift.Unmarshal(p, bl, &outl) }); pan != "" || err != nil || len(outl.L) != 1 || !outl.L[0].A {
+				c.Diverge("C04", "thrift.Unmarshal(Marshal(v))(union as a list element)["+pn+"]", "A=true", fmt.Sprintf("%+v err=%v %s", outl, err, pan), "", k)
+			} else if fp, isPtr := outl.L[0].F.(*bool); !isPtr || fp == nil || !*fp {
+				c.Diverge("C04", "thrift.Unmarshal(Marshal(v))(union as a list element)["+pn+"]", "F -> true", fmt.Sprintf("%+v", outl.L[0].F), "", k)
+			}
+		}
+		// F-C04-3: an enum field of a 64-bit kind travels as 32 bits (F-C13-5 is the same fact seen on the wire)
+		for _, v := range []int64{1, -1, 1 << 31, 1 << 40, -(1 << 40), 1<<31 - 1} {
+			k := thriftCase{Proto: pn, What: fmt.Sprintf("known: enum of a 64-bit kind %d", v)}
+			var out c04E64
+			var err error
+			c.Case()
+			c.Eval(1)
+			b, merr := thrift.Marshal(p, c04E64{E: v})
+			if pan := protect(func() { err = thrift.Unmarshal(p, b, &out) }); pan != "" || merr != nil || err != nil {
+				c.Diverge("C04", "thrift.Unmarshal(Marshal(v))(enum of a 64-bit kind)["+pn+"]", fmt.Sprint(v), fmt.Sprintf("%v %v %s", merr, err, pan), "", k)
+			} else if out.E != v {
+				finding := ""
+				if out.E == int64(int32(v)) {
+					finding = "F-C04-3"
+				}
+				c.Diverge("C04", "thrift.Unmarshal(Marshal(v))(enum of a 64-bit kind)["+pn+"]", fmt.Sprint(v), fmt.Sprint(out.E), finding, k)
+			}
+		}
+	}
+}
+
 func c04Embedded(c *Ctx) {
+	c04Known(c)
 	c04Recursive(c)
 	l3 := EmbL3{A: 11, B: 22, C: "c", H: 88}
 	vals := []any{
@@ -1137,7 +1212,7 @@ func c04Replay(c *Ctx, raw stdjson.RawMessage) {
 			c04Reversed(c, k)
 			return
 		}
-		if strings.HasPrefix(k.What, "embedded structs") || strings.HasPrefix(k.What, "recursive types") || strings.HasPrefix(k.What, "long lists") {
+		if strings.HasPrefix(k.What, "embedded structs") || strings.HasPrefix(k.What, "recursive types") || strings.HasPrefix(k.What, "long lists") || strings.HasPrefix(k.What, "known: ") {
 			c04Embedded(c)
 			return
 		}
@@ -1848,9 +1923,76 @@ func c08TopLevelTargets(c *Ctx) {
 	}
 }
 
+// c08Messages: every proper prefix of a message header is an unexpected end of input for ReadMessage (plain io.EOF
+// for the empty input only), and a negative element count is rejected also where the value is only skipped
+func c08Messages(c *Ctx) {
+	for _, pn := range protoNames {
+		p := protoOf(pn)
+		for _, m := range []thrift.Message{{Type: thrift.Call, Name: "", SeqID: 1}, {Type: thrift.Reply, Name: "name", SeqID: 300}, {Type: thrift.Exception, Name: strings.Repeat("n", 200), SeqID: 0}} {
+			var buf bytes.Buffer
+			if err := p.NewWriter(&buf).WriteMessage(m); err != nil {
+				continue
+			}
+			b := buf.Bytes()
+			for cut := 0; cut <= len(b); cut++ {
+				k := thriftCase{Proto: pn, What: fmt.Sprintf("message headers cut=%d", cut)}
+				var err error
+				c.Case()
+				c.Eval(1)
+				if pan := protect(func() { _, err = p.NewReader(bytes.NewReader(b[:cut])).ReadMessage() }); pan != "" {
+					c.Diverge("C08", "Reader.ReadMessage(cut short)["+pn+"]", "an error, no panic", pan, "", k)
+					continue
+				}
+				switch {
+				case cut == len(b) && err != nil:
+					c.Diverge("C08", "Reader.ReadMessage["+pn+"]", "nil error", fmt.Sprint(err), "", k)
+				case cut > 0 && cut < len(b) && (err == nil || errors.Is(err, io.EOF) && !isUnexpectedEOF(err)):
+					c.Diverge("C08", "Reader.ReadMessage(cut short)["+pn+"]", "an unexpected-EOF class error", fmt.Sprintf("err=%v (first %d of %d bytes)", err, cut, len(b)), "", k)
+				}
+			}
+		}
+	}
+	// negative sizes of lists, sets and maps in fields the target does not declare (binary: the size is a signed word)
+	p := protoOf("binary")
+	stop, _ := thrift.Marshal(p, struct{}{})
+	for _, kind := range []string{"list", "set", "map"} {
+		for _, size := range []uint32{0xffffffff, 0x80000000, 0xfffffff0} {
+			var buf bytes.Buffer
+			w := p.NewWriter(&buf)
+			switch kind {
+			case "list":
+				w.WriteField(thrift.Field{ID: 9, Type: thrift.LIST})
+				w.WriteList(thrift.List{Type: thrift.I32, Size: 1})
+			case "set":
+				w.WriteField(thrift.Field{ID: 9, Type: thrift.SET})
+				w.WriteSet(thrift.Set{Type: thrift.I32, Size: 1})
+			default:
+				w.WriteField(thrift.Field{ID: 9, Type: thrift.MAP})
+				w.WriteMap(thrift.Map{Key: thrift.I32, Value: thrift.I32, Size: 1})
+			}
+			b := buf.Bytes()
+			binary.BigEndian.PutUint32(b[len(b)-4:], size)
+			w.WriteField(thrift.Field{ID: 1, Type: thrift.I32})
+			w.WriteInt32(7)
+			in := append(append([]byte(nil), buf.Bytes()...), stop...)
+			k := thriftCase{Proto: "binary", What: fmt.Sprintf("message headers negative %s size %x", kind, size)}
+			var out struct {
+				A int32 `thrift:"1"`
+			}
+			var err error
+			c.Case()
+			c.Eval(1)
+			if pan := protect(func() { err = thrift.Unmarshal(p, in, &out) }); pan != "" || err == nil {
+				c.Diverge("C08", "thrift.Unmarshal(negative element count in a field the target does not declare)[binary]", "an error", fmt.Sprintf("err=%v A=%d %s", err, out.A, pan), "", k)
+			}
+		}
+	}
+}
+
 func c08ForeignBools(c *Ctx) {
 	c08IdZero(c)
 	c08TopLevelTargets(c)
+	c08Messages(c)
 	type full struct {
 		A int32  `thrift:"1"`
 		L []bool `thrift:"9"`
@@ -1976,7 +2118,7 @@ func c08Replay(c *Ctx, raw stdjson.RawMessage) {
 			c08Alloc(c, k.Alloc)
 			return
 		}
-		if strings.HasPrefix(k.What, "foreign bools") || k.What == "field id 0" || strings.HasPrefix(k.What, "top-level targets") {
+		if strings.HasPrefix(k.What, "foreign bools") || k.What == "field id 0" || strings.HasPrefix(k.What, "top-level targets") || strings.HasPrefix(k.What, "message headers") {
 			c08ForeignBools(c)
 			return
 		}
